@@ -664,3 +664,16 @@ pub(crate) fn stub_frame_clone(f: &crate::types::Frame) -> crate::types::Frame {
     c.enrichment_state = f.enrichment_state;
     c
 }
+
+// SipHash replaced by a constant hash: every key of a std HashMap/HashSet lands in the same
+// bucket chain and is told apart by `==` alone. Set/map semantics do not depend on the hash
+// function, so this only removes the SipHash rounds (and their loops) from the query.
+pub(crate) fn stub_default_hasher_write(_h: &mut std::hash::DefaultHasher, _b: &[u8]) {}
+pub(crate) fn stub_default_hasher_write_str(_h: &mut std::hash::DefaultHasher, _s: &str) {}
+pub(crate) fn stub_default_hasher_finish(_h: &std::hash::DefaultHasher) -> u64 { 0 }
+#[cfg(kani)]
+kani::stub_set!(pub(crate) constant_hash_stubs,
+    stub(<std::hash::DefaultHasher as core::hash::Hasher>::write, crate::verif_env::stub_default_hasher_write),
+    stub(<std::hash::DefaultHasher as core::hash::Hasher>::write_str, crate::verif_env::stub_default_hasher_write_str),
+    stub(<std::hash::DefaultHasher as core::hash::Hasher>::finish, crate::verif_env::stub_default_hasher_finish),
+);
